@@ -51,7 +51,7 @@ package node
 
 //@ func runTrx(ctx)
 //@   nopanic
-//@   requires wf_ctx(ctx) && amounts_fit(ctx) && ctx.GasUsed == 0
+//@   requires wf_ctx(ctx) && ctx.GasUsed == 0
 //@   requires ctx.Exec ==> sig_ok(ctx.Tx, ctx.ChainID)                                                       [C03]
 //@   requires ctx.Sender.Nonce == ctx.Tx.Nonce                                                               [C04]
 //@   requires fee_of(ctx.Tx) + u(ctx.Tx.Amount) <= u(ctx.Sender.Balance) && u(ctx.Tx.GasPrice) < 2^128 && ctx.Tx.Gas < 2^63
@@ -66,7 +66,7 @@ package node
 
 //@ func (txe *TrxExecutor) ExecuteSync(ctx)
 //@   nopanic
-//@   requires wf_ctx(ctx) && amounts_fit(ctx) && ctx.GasUsed == 0
+//@   requires wf_ctx(ctx) && ctx.GasUsed == 0
 //@   modifies everything
 //@   preserves Trx.*, govGasPrice, govMinTrxGas, TrxContext.Tx, TrxContext.Sender, TrxContext.Exec
 //@   ensures result == nil && (ctx.Exec || old(native_tx(ctx))) ==> old(ctx.Sender.Nonce) == ctx.Tx.Nonce && (ctx.Sender.Nonce == old(ctx.Sender.Nonce) + 1 || old(ctx.Sender.Nonce) == 18446744073709551615)   [C04]
